@@ -358,6 +358,7 @@ impl Prop for C10 {
             }
             let p = Pos::from_fen(f).unwrap();
             let lab = label(&p, true);
+            ctx.note_inflight("C10", &MateCase::Fen { fen: f.to_string(), via_uci: true, history: (i % 8) as u8 });
             if let Err(fail) = self.judge(&p, lab, true, (i % 8) as u8, ev) {
                 report(MateCase::Fen { fen: f.to_string(), via_uci: true, history: (i % 8) as u8 }, fail);
                 return;
